@@ -318,6 +318,33 @@ def run(ctx):
                 ctx.prove("C11.state", c.ident, loc_of(mu), f"self.{a} is saved by _checkpoint_extra_state and restored on resume", disc=f"self.{a}")
     ctx.floor("concrete SMC sampler classes", n_cls, 3)
 
+    # ---- restore must not bring back a container that sample() consumes destructively
+    # (the copy in the checkpoint was taken after the pop: restoring it loses what was popped,
+    # and overrides the options given to the resuming call)
+    me_s = sample.params[0]
+    consumed = {}
+    for n in walk_no_nested(sample.node):
+        if isinstance(n, ast.Call) and isinstance(n.func, ast.Attribute) and n.func.attr in ("pop", "popitem", "clear") \
+                and isinstance(n.func.value, ast.Attribute) and isinstance(n.func.value.value, ast.Name) and n.func.value.value.id == me_s:
+            consumed.setdefault(n.func.value.attr, n)
+        if isinstance(n, ast.Delete):
+            for t_ in n.targets:
+                if isinstance(t_, ast.Subscript) and isinstance(t_.value, ast.Attribute) and isinstance(t_.value.value, ast.Name) and t_.value.value.id == me_s:
+                    consumed.setdefault(t_.value.attr, n)
+    n_lossy = 0
+    for c in [smc] + [x for x in repo.subclasses(smc, strict=True)]:
+        for nm in ("restore_from_checkpoint", "_restore_extra_state"):
+            rf = c.methods.get(nm)
+            if rf is None:
+                continue
+            n_lossy += 1
+            hit = sorted(set(_self_writes(rf)) & set(consumed))
+            ctx.decide(not hit, "C11.state", rf.ident, loc_of(rf), f"{c.name}.{nm} restores nothing that sample() consumes destructively",
+                       f"{c.name}.{nm} restores self.{hit[0] if hit else ''}, from which sample() removes entries (line {consumed[hit[0]].lineno if hit else 0}) before any checkpoint is built: "
+                       "the checkpointed copy no longer has them, and restoring it also overrides the options of the resuming call, so the resumed run differs from the uninterrupted one",
+                       disc=f"lossy|{c.name}.{nm}")
+    ctx.floor("restore hooks checked for lossy restores", n_lossy, 1)
+
     # ---- mutable loop state in the payload is a snapshot, not an alias
     extra = _extra_keys(repo, smc)
     hv = extra.get("history")
@@ -611,6 +638,8 @@ MUTANTS += [
     M("generator state restored only when absent", _B, "if rng_state is not None and hasattr(self.rng, \"bit_generator\"):", "if rng_state is None and hasattr(self.rng, \"bit_generator\"):", "C11.restore"),
     M("extras not merged into the payload", "src/aspire/samplers/base.py", "base_state.update(self._checkpoint_extra_state())\n", "", "C11.keys"),
     M("minipcn sampler drops resume_from", "src/aspire/samplers/smc/minipcn.py", "resume_from=resume_from,\n", "", "C11.src"),
+    M("kernel options restored from the checkpoint", _B, "def restore_from_checkpoint(\n        self, source: str | bytes | dict\n    ) -> tuple[SMCSamples, float, int]:",
+      "def _restore_extra_state(self, state: dict) -> None:\n        sampler_kwargs = state.get(\"sampler_kwargs\")\n        if sampler_kwargs is not None:\n            self.sampler_kwargs = dict(sampler_kwargs)\n\n    def restore_from_checkpoint(\n        self, source: str | bytes | dict\n    ) -> tuple[SMCSamples, float, int]:", "C11.state"),
     M("bytes checkpoints treated as paths", "src/aspire/samplers/base.py", "if isinstance(source, str):\n            state = self.load_checkpoint_from_file(source)\n        elif isinstance(source, bytes):\n            state = pickle.loads(source)",
       "if isinstance(source, (str, bytes)):\n            state = self.load_checkpoint_from_file(source)", "C11.src"),
     M("extra sampler state never restored", "src/aspire/samplers/base.py", "self._restore_extra_state(state)\n        return samples, state", "return samples, state", ("C11.src", "C11.state")),
